@@ -117,9 +117,15 @@ impl World {
         let genesis = chain.genesis();
         let consensus = chain.consensus();
         let dir = client::fresh_dir();
-        let client = Client::open(&dir, &genesis, &consensus, &ccfg);
+        // the very first open may be interrupted by an injected crash (C08): the world then starts "dead"
+        let (client, dead) = match super::util::guarded(|| Client::open(&dir, &genesis, &consensus, &ccfg)) {
+            Ok(c) => (Some(c), false),
+            Err(Unwound::Crash(..)) => (None, true),
+            Err(Unwound::Panic(p)) => panic!("client does not open: {} at {}", p.message, p.location),
+            Err(Unwound::Abort) => (None, true),
+        };
         World {
-            client: Some(client),
+            client,
             dir,
             genesis,
             consensus,
@@ -134,7 +140,7 @@ impl World {
             last_ask_seen: None,
             last_ask_virtual: now,
             panics: vec![],
-            dead: false,
+            dead,
             bans: vec![],
             disconnects: vec![],
             delivered: 0,
